@@ -4,6 +4,7 @@ import (
 	"strconv"
 
 	res "github.com/jirenius/go-res"
+	"github.com/jirenius/go-res/store"
 	"verif/harness/internal/gen"
 	"verif/harness/internal/wire"
 )
@@ -170,6 +171,7 @@ func (patDom) Gen(r *gen.R, tier string, emit func(string)) {
 		}
 		emit(wire.Line(args...))
 		emit(wire.Line("replacetag", p, r.Pick([]string{"x", "y", "xy", "", "b", "x$"}), r.Pick(tagvals)))
+		emit(wire.Line("idtorid", p, r.Pick([]string{"x", "y", "xy", "b"}), r.Pick([]string{"1", "v", "42", "$z", "a-b"})))
 	}
 }
 
@@ -238,6 +240,9 @@ func (patDom) Exec(a []string) string {
 			return wire.Enc(string(p.ReplaceTags(m)))
 		case "replacetag":
 			return wire.Enc(string(p.ReplaceTag(a[2], a[3])))
+		case "idtorid":
+			// store.IDTransformer: the resource id of a stored id is the pattern with that one tag replaced
+			return wire.Enc(store.IDTransformer(a[2], nil).IDToRID(a[3], nil, p))
 		}
 		return "bad-op"
 	})
